@@ -203,6 +203,9 @@ func genC03Bytes(r *rng, n int) {
 			root.Fields[0].ID = 0
 		}
 		g.decorate(root)
+		if g.r.chance(30) {
+			g.typedefs()
+		}
 		if useBase {
 			g.extra[baseFld].respBase = true
 			g.extra[baseFld].jsconv = false
@@ -243,6 +246,7 @@ func genC03Bytes(r *rng, n int) {
 		if escAlias {
 			g.syncAlias(rootTy, desc) // the IDL parser's reading of the literal is what the converter writes
 		}
+		g.baseFromDesc(rootTy, desc)
 		var dfs []string
 		g.descFields(rootTy, &dfs)
 		for k := 0; k < 5 && made < n; k++ {
